@@ -54,13 +54,20 @@ theorem C10_each_lease_once {O : Oracle} {c : Conf} {s : State} (hr : Reachable 
     (s.leases.map (·.id)).Nodup ∧ (s.leases.map (·.ip)).Nodup ∧ (s.leases.map (·.mac)).Nodup :=
   ⟨hr.inv.idNodup, hr.inv.ipNodup, hr.inv.macNodup⟩
 
-/-- Dynamic addresses lie inside the pool, are not the gateway and never
-coincide with a static reservation. -/
-theorem C10_dynamic_in_pool_not_reserved {O : Oracle} {c : Conf} {s : State} (hc : ConfOK c)
+/-- A configuration the server accepts never has the gateway inside the
+(inclusive) pool — at its first or last address included.  `validate`
+transcribes `V4ServerConf.Validate`; its verdict is compared with the real
+`v4Create` on every generated configuration. -/
+theorem C10_validate_excludes_gateway {c : Conf} (h : validate c = true) :
+    ¬ (c.start ≤ c.gw ∧ c.gw ≤ c.stop) ∧ c.start < c.stop := ⟨(validate_spec h).2.1, (validate_spec h).1⟩
+
+/-- Dynamic addresses lie inside the pool, are not the gateway (because the
+configuration passed validation) and never coincide with a static reservation. -/
+theorem C10_dynamic_in_pool_not_reserved {O : Oracle} {c : Conf} {s : State} (hc : validate c = true)
     (hr : Reachable O c s) {l : Lease} (hl : l ∈ s.leases) (hd : l.static = false) :
     (c.start ≤ l.ip ∧ l.ip ≤ c.stop) ∧ l.ip ≠ c.gw ∧ ∀ r ∈ s.leases, r.static = true → r.ip ≠ l.ip := by
   have hp := hr.inv.dynPool l hl hd
-  refine ⟨hp, fun e => hc.gwOut ⟨e ▸ hp.1, e ▸ hp.2⟩, ?_⟩
+  refine ⟨hp, fun e => (validate_spec hc).2.1 ⟨e ▸ hp.1, e ▸ hp.2⟩, ?_⟩
   intro r hrm hrs e
   have : r = l := nodup_map_inj hr.inv.ipNodup hrm hl e
   rw [this, hd] at hrs; cases hrs
@@ -164,13 +171,14 @@ no step other than a restart makes the file differ from the table, and the
 hostname index is sound.  What is left of `specOK` are the two clauses the code
 violates (hostname index complete — R3; restart reproduces table and answers —
 R4), see below. -/
-theorem C10_model_meets_spec {O : Oracle} {c : Conf} {s : State} (hc : ConfOK c) (hr : Reachable O c s)
+theorem C10_model_meets_spec {O : Oracle} {c : Conf} {s : State} (hc : validate c = true) (hpos : 0 < c.start)
+    (hr : Reachable O c s)
     {op : Op} :
     specCore c (obsOf c s) op (step O c s op).2 (obsOf c (step O c s op).1) = true ∧
     reservationsKept (obsOf c s) op (obsOf c (step O c s op).1) = true ∧
     (op ≠ .restart → (diskMirror (obsOf c s) && !diskMirror (obsOf c (step O c s op).1)) = false) ∧
     hostIndexSound (obsOf c (step O c s op).1) = true :=
-  ⟨specCore_step hc hr.inv, obs_reservationsKept hr.inv, fun hne => obs_disk_step hr.inv hne,
+  ⟨specCore_step hc hpos hr.inv, obs_reservationsKept hr.inv, fun hne => obs_disk_step hr.inv hne,
     obs_hostIndexSound (Inv_step hr.inv)⟩
 
 /-! ### R3 — the generated hostname is not checked for uniqueness (unrepaired)
@@ -182,7 +190,7 @@ Full statement (false): `∀ reachable s, ∀ l ∈ s.leases, l.host ≠ [] → 
 requests it without a hostname: two leases carry the same name, the index entry
 of the reservation now points to the client, and the monitor names the cause. -/
 theorem C10_counterexample_generated_hostname_not_unique :
-    ConfOK c0 ∧
+    validate c0 = true ∧
     (run O0 c0 State.init opsR3).leases.map (fun l => (l.ip, l.static, l.host)) =
       [(20, true, name10), (10, false, name10)] ∧
     (run O0 c0 State.init opsR3).hosts name10 = some 1 ∧
@@ -190,7 +198,7 @@ theorem C10_counterexample_generated_hostname_not_unique :
     specWhy c0 (obsOf c0 (run O0 c0 State.init (opsR3.take 2))) (.request mB 2 true 10 0 [])
       (step O0 c0 (run O0 c0 State.init (opsR3.take 2)) (.request mB 2 true 10 0 [])).2
       (obsOf c0 (run O0 c0 State.init opsR3)) = some "generated-hostname-not-unique@request" := by
-  refine ⟨c0_ok, by decide, by decide, by decide, by decide⟩
+  refine ⟨c0_valid, by decide, by decide, by decide, by decide⟩
 
 /-- What does hold: the hostname index stays complete over every step that is
 not an instance of R3 (`R3at`: a REQUEST commits a still unnamed lease, the
@@ -221,14 +229,14 @@ permutation of `s.leases.map Lease.view`, with the same `HostByIP` / `IPByHost` 
 /-- One DISCOVER, then a restart: the file mirrors the table, yet the reloaded
 lease has a hostname it did not have, and `IPByHost` answers a name it did not know. -/
 theorem C10_counterexample_restart_names_unnamed_lease :
-    ConfOK c0 ∧ Mirror (run O0 c0 State.init opsR4) ∧
+    validate c0 = true ∧ Mirror (run O0 c0 State.init opsR4) ∧
     (run O0 c0 State.init opsR4).leases.map (·.host) = [[]] ∧
     (restart O0 c0 (run O0 c0 State.init opsR4)).leases.map (·.host) = [name10] ∧
     (obsOf c0 (run O0 c0 State.init opsR4)).ipByHost name10 = none ∧
     (obsOf c0 (restart O0 c0 (run O0 c0 State.init opsR4))).ipByHost name10 = some 10 ∧
     specWhy c0 (obsOf c0 (run O0 c0 State.init opsR4)) .restart (Reply.api "ok")
       (obsOf c0 (restart O0 c0 (run O0 c0 State.init opsR4))) = some "restart-names-unnamed-lease" := by
-  refine ⟨c0_ok, .inl (by decide), by decide, by decide, by decide, by decide, by decide⟩
+  refine ⟨c0_valid, .inl (by decide), by decide, by decide, by decide, by decide, by decide⟩
 
 /-- If the generated name is taken, the restart drops a lease — here the reservation. -/
 theorem C10_counterexample_restart_drops_lease_generated_name_taken :
@@ -255,12 +263,19 @@ theorem C10_restart_restores_table_partial {O : Oracle} {c : Conf} {s : State} (
 
 /-! ### non-vacuity -/
 
-/-- `ConfOK` is satisfiable; a reachable table with a reservation,
+/-- `validate` accepts a configuration; a reachable table with a reservation,
 two acknowledged clients and an outstanding offer. -/
-example : ConfOK c0 ∧
+example : validate c0 = true ∧
     (run O0 c0 State.init opsOK).leases.map (fun l => (l.ip, l.static, l.exp)) =
       [(20, true, 0), (10, false, 1060), (11, false, 1060), (12, false, 0)] :=
-  ⟨c0_ok, by decide⟩
+  ⟨c0_valid, by decide⟩
+
+/-- `validate` rejects the gateway at the last, the first and an inner pool address, a one-address pool,
+a reversed range and a range outside the gateway's subnet. -/
+example : validate { c0 with gw := 12 } = false ∧ validate { c0 with gw := 10 } = false ∧
+    validate { c0 with gw := 11 } = false ∧ validate { c0 with stop := 10 } = false ∧
+    validate { c0 with start := 12, stop := 10 } = false ∧ validate { c0 with stop := 300 } = false ∧
+    validate { c0 with gw := 13 } = true ∧ validate { c0 with gw := 9 } = true := by decide
 
 example : Reachable O0 c0 (run O0 c0 State.init opsOK) := ⟨opsOK, rfl⟩
 
